@@ -5,6 +5,7 @@ from .. import gen as G, harness as H, model as M, spec as S
 
 PROP = "C01"
 LEVEL = "exploration"
+ANCHORS = ["_solv_outp_volt", "_solv_inp_curr", "_child_curr", "_fwd_prop", "_back_prop", "System.solve", "_Interp", "_get_pri_inp"]  # functions whose reached lines are reported in the evidence
 RULE = (
     "cases = random SystemSpecs (1-4 sources, optional PMux, all 11 kinds, constants / 1-D / affine 2-D / general "
     "2-D tables, positive / negative / mixed polarity, benign and heavy drop regimes, with and without phases) "
